@@ -447,6 +447,7 @@ func genPipelines(o *out, cb map[string]*ast.File, all []funcInfo) {
 	pipes := map[string]string{} // variable -> pipeline kind
 	order := []string{}
 	regs := map[string][]string{}
+	regNames := map[string][][2]string{}
 	handlers := map[string]bool{}
 	if reg != nil {
 		for _, s := range reg.Body.List {
@@ -507,10 +508,22 @@ func genPipelines(o *out, cb map[string]*ast.File, all []funcInfo) {
 					hname = hname[:i]
 				}
 				handlers[hname] = true
+				regNames[kind] = append(regNames[kind], [2]string{name, match})
 				regs[kind] = append(regs[kind], fmt.Sprintf("{ op := %s, name := %s, matchGuard := %s, before := %s, after := %s, handler := %s, handlerExpr := %s }",
 					lstr(op), lstr(name), lstr(match), lstr(strings.Trim(before, "\"")), lstr(strings.Trim(after, "\"")), lstr(hname), lstr(h)))
 			}
 		}
+	}
+	{
+		fp := map[string][][2]string{}
+		for _, k := range order {
+			for _, fi := range all {
+				_ = fi
+			}
+			fp[k] = regNames[k]
+		}
+		o.facts["pipelines"] = fp
+		o.facts["pipelineOrder"] = order
 	}
 	b.WriteString("/-- callbacks/callbacks.go RegisterDefaultCallbacks: registrations per pipeline, in source order -/\ndef pipelines : List (String × List CbReg) := [\n")
 	for i, k := range order {
